@@ -26,6 +26,8 @@ SCEN = {
     "late": [("a", [], None, False), ("b", [0], None, True), ("c", [], None, True)],
     "tl-chain": [("a", [], 5, False), ("b", [0], None, False), ("c", [], None, False)],
     "late-join": [("a", [], None, False), ("c", [], None, False), ("b", [0, 1], None, True)],
+    # two tasks with the same name alive in one pool (q and q#2 are both called q): one is skipped / cancelled / finishes while the other holds a core
+    "twins": [("p", [], None, False), ("q", [0], None, False), ("q#2", [], None, False), ("r", [], None, False)],
     "one": [("a", [], None, False)],
     "one-tl": [("a", [], 5, False), ("b", [], None, False)],
 }
@@ -277,7 +279,7 @@ def pool_body(args):
             if (bad_failed or bad_cancel) and st == LocalStatus.COMPLETED:
                 problems.append("[C11] task %s completed although a dependency did not" % nm)
             # logs of a task that ran to its end and completed are stored completely
-            if spawned and proc.ran_to_end and st == LocalStatus.COMPLETED:
+            if spawned and proc.ran_to_end and st == LocalStatus.COMPLETED and not any(o != nm and o.split("#")[0] == nm.split("#")[0] for o in pool.names.values()):
                 if pool.log(nm, "stdout") != proc.stdout.decode() or pool.log(nm, "stderr") != proc.stderr.decode():
                     problems.append("[C13] logs of completed task %s are incomplete: %r / %r" % (nm, pool.log(nm, "stdout"), pool.log(nm, "stderr")))
             if spawned and tl is not None and proc.killed_at is not None and tid not in eff_cancel and not proc.ran_to_end:
